@@ -333,5 +333,7 @@ def wireNames : List Bytes :=
   [wireDecode_VersionTag_name, wireDecode_ID_name, wireDecode_Method_name, wireDecode_Params_name,
    wireDecode_Result_name, wireDecode_Error_name]
 
+/-- The three member names `DecodeMessage` looks at inside the `error` object. -/
+def wireErrorNames : List Bytes := [WireError_Code_name, WireError_Message_name, WireError_Data_name]
 
 end Wire
